@@ -124,15 +124,6 @@ func (e *mvEnv) frontier() *nom.Momentum {
 	return m
 }
 
-func keyOf(a types.Address) *wallet.KeyPair {
-	for _, k := range g.AllKeyPairs {
-		if k.Address == a {
-			return k
-		}
-	}
-	return nil
-}
-
 // build the momentum for timestamp tsec on top of the frontier exactly as pillar/worker_momentum.go does, signed by key.
 func (e *mvEnv) build(prev *nom.Momentum, tsec int64, blocks []*nom.AccountBlock, key *wallet.KeyPair) (*nom.MomentumTransaction, error) {
 	m := &nom.Momentum{
@@ -163,7 +154,6 @@ func (e *mvEnv) refBefore(t time.Time) *nom.Momentum {
 	return nil
 }
 
-func hx(b []byte) string { return hexOrDash(b) }
 
 func (e *mvEnv) electionTok(ts time.Time) string {
 	if ts.Before(e.genesis) || ts.Unix()-e.genesis.Unix() > 1<<33 {
